@@ -9,7 +9,9 @@ package defaults
 //@   property C15
 //@   -- the browser is sent to the configured path, or to a client-supplied target that no
 //@   -- browser resolves to another origin
-//@   ensures guard: each HTTPRedirect(_, ?url, ?code) => code == 302 && (url == ro.RedirectPath || !offsite(url))
+//@   -- (the Location header is what net/http.Redirect makes of the target: it cleans the path
+//@   -- first, which can move a backslash segment to the front - offsite_cleaned accounts for it)
+//@   ensures guard: each HTTPRedirect(_, ?url, ?code) => code == 302 && (url == ro.RedirectPath || !offsite_cleaned(url))
 //@   ensures param_only_when_asked: each HTTPRedirect(_, ?url, _) => (!ro.FollowRedirParam ==> url == ro.RedirectPath)
 //@   ensures redirects_once: !panics ==> emits HTTPRedirect(_, _, _)
 //@
@@ -92,4 +94,27 @@ package defaults
 //@   ensures register_extra_fields: (page == "register" && result.1 == nil) ==>
 //@       (forall q string :: maphas(dyn(result.0, "Arbitrary"), q) ==>
 //@           (in_list(mapget(h.Whitelist, page), q) && mapget(dyn(result.0, "Arbitrary"), q) == mapget(dyn(result.0, "HTTPFormValidator.Values"), q)))
+//@
+//@ -- C10 ("logout only reacts to the configured HTTP method"): the default router keeps one
+//@ -- table per method; a request is served from the table of exactly its method, any other
+//@ -- method is refused with 405, and registration goes to the table of the method named.
+//@ func (*Router).ServeHTTP
+//@   property C10
+//@   ensures method_routing: each Mux.ServeHTTP(?m, ?w2, ?r2) => w2 == w && r2 == req &&
+//@       ((req.Method == "GET" && m == r.gets) || (req.Method == "POST" && m == r.posts) || (req.Method == "DELETE" && m == r.deletes))
+//@   ensures other_methods_refused: (req.Method != "GET" && req.Method != "POST" && req.Method != "DELETE") ==>
+//@       (!emits Mux.ServeHTTP(_, _, _) && emits WriteHeader(_, 405))
+//@   ensures known_methods_served: (req.Method == "GET" || req.Method == "POST" || req.Method == "DELETE") ==> emits Mux.ServeHTTP(_, _, _)
+//@
+//@ func (*Router).Get
+//@   property C10
+//@   ensures registers_get: (emits Mux.Handle(_, _, _)) && (each Mux.Handle(?m, ?p, ?h) => m == r.gets && p == path && h == handler)
+//@
+//@ func (*Router).Post
+//@   property C10
+//@   ensures registers_post: (emits Mux.Handle(_, _, _)) && (each Mux.Handle(?m, ?p, ?h) => m == r.posts && p == path && h == handler)
+//@
+//@ func (*Router).Delete
+//@   property C10
+//@   ensures registers_delete: (emits Mux.Handle(_, _, _)) && (each Mux.Handle(?m, ?p, ?h) => m == r.deletes && p == path && h == handler)
 
